@@ -1,5 +1,6 @@
 SPECIFICATION Spec
 CONSTANTS
   FirstP2p = FALSE
-INVARIANTS DerivedIdParses TableConsistent MaddrRule
+  AppendIfNone = FALSE
+INVARIANTS DerivedIdParses TableConsistent MaddrRule RecordNewRule
 CHECK_DEADLOCK FALSE
